@@ -113,6 +113,8 @@ def check_two_stage(ctx, f, rule, name, specs, ok_shape):
 
 
 def check(ctx):
+    from .ctors import check_table
+    check_table(ctx, "C14", "R14.6")
     F = ctx.F
     # ---------------- Then -------------------------------------------------
     f = ctx.fn("<ec_core::operator::composable::then::Then<F, G> as " + OP % "A")
